@@ -85,6 +85,35 @@ Theorem C02_effective_is_walk : forall d (inh : loc -> option loc) (present : lo
   effective d present l = first_defined inh present (dl_default d) F l.
 Proof. exact effective_is_walk. Qed.
 
+(** the three statements above composed on a configuration: default locale, the other locales, the `inherits`
+    table (any shape: chains, forks, cycles, self loops) and the values of the locales that define a key.  With the
+    mapping the merge builds ([defaults_of]: every non-defining locale is pushed with its `inherits` entry, else the
+    default) both generated matches give EVERY configured locale the code of the value written by the first locale
+    of its inherits walk that defines the key, else by the default *)
+Theorem C02_defaulted_config : forall (dflt : N) (inherits : list (N * N)) (others : list N) (defs : list (N * pv)),
+  NoDup (map fst defs) -> ~ In dflt others -> In dflt (map fst defs) ->
+  (forall t, In t (map fst defs) -> t = dflt \/ In t others) ->
+  (forall x y, map_get inherits x = Some y -> In x others /\ (y = dflt \/ In y others)) ->
+  let defines := fun l => existsb (N.eqb l) (map fst defs) in
+  let d := defaults_of dflt inherits others defines in
+  forall l, (l = dflt \/ In l others) ->
+  exists v, assoc_get defs (first_defined (map_get inherits) defines dflt (S (length others)) l) = Some v
+            /\ view_locale_match (compute d) defs l = Some (gen_view v)
+            /\ string_locale_match (compute d) defs l = Some (gen_string v).
+Proof. exact defaulted_config. Qed.
+
+(** non-vacuity: en (0) and fr (1) define the key, fr-CA (2) inherits fr, fr-BE (3) inherits fr-CA, es-AR (4) and
+    es-MX (5) inherit each other: 2 and 3 get fr's code, 4 and 5 the default's, from both matches *)
+Example C02_defaulted_example :
+  let defs := [(0, PLit (LStr [101; 110])); (1, PLit (LStr [102; 114]))]%N in
+  let d := defaults_of 0 [(2, 1); (3, 2); (4, 5); (5, 4)]%N [1; 2; 3; 4; 5]%N (fun l => existsb (N.eqb l) (map fst defs)) in
+  map (view_locale_match (compute d) defs) [0; 1; 2; 3; 4; 5]%N
+  = map (fun v => Some (gen_view v)) [PLit (LStr [101; 110]); PLit (LStr [102; 114]); PLit (LStr [102; 114]);
+                                      PLit (LStr [102; 114]); PLit (LStr [101; 110]); PLit (LStr [101; 110])]%N
+  /\ map (string_locale_match (compute d) defs) [2; 4]%N
+     = [Some (gen_string (PLit (LStr [102; 114]%N))); Some (gen_string (PLit (LStr [101; 110]%N)))].
+Proof. vm_compute. split; reflexivity. Qed.
+
 (** ranges: the integer `match` of the view back-end, the integer `match` of the string back-end and the two
     float if-chains take the same arm - the first one an alternative of which accepts the count, or the fallback -
     and render it alike, whatever the acceptance test [holds] is (C04 defines it) *)
